@@ -2,6 +2,7 @@ import SJ.Props.C05
 import SJ.Props.C09Readers
 import SJ.Props.C05Bytes
 import SJ.Props.C05BytesReaders
+import SJ.Props.C05Hex
 #print axioms SJ.Props.C05.c05_escape_table
 #print axioms SJ.Props.C05.c05_escape_spec
 #print axioms SJ.Props.C05.c05_escape_buffers_utf8_cut
@@ -29,3 +30,8 @@ import SJ.Props.C05BytesReaders
 #print axioms SJ.Props.C05.c05_bytes_vs_str_spec
 #print axioms SJ.Props.C05.c05_bytes_control_passes
 #print axioms SJ.Props.C05.c05_bytes_target_readers
+#print axioms SJ.Props.C05Hex.c05_machine_hex4_spec
+#print axioms SJ.Props.C05Hex.c05_hex4_rejects_iff
+#print axioms SJ.Props.C05Hex.c05_hex_three_agree
+#print axioms SJ.Props.C05Hex.c05_machine_hex_steps
+#print axioms SJ.Props.C05Hex.c05_scan_is_naive
